@@ -232,6 +232,16 @@ impl UnitRunner for C06 {
           let c = canon(&v);
           out.set(&format!("families_reproduced_in_{}", route), &fam_key(&p.family));
           if c != c1 { out.fail(format!("C06|different-result|run-in-{}|{}", route, fam_key(&p.family)), case.clone(), format!("interpreter: {} ; bytecode in the {}: {}", c1.short(), route, c.short())); }
+          // run_program hands back the stored output of the last instruction; one solve of the rebuilt plan really executes the rebuilt
+          // functions on the decoded constants. For a program without assignment statements the value must still be the interpreter's.
+          else if !p.text.contains(" = ") && !p.text.contains("+=") && !p.text.contains("-=") && !p.text.contains("*=") && !p.text.contains("/=") {
+            out.evaluations += 1;
+            match catch_unwind(AssertUnwindSafe(|| intr.step(0, 1))) {
+              Ok(Ok(v2)) => { out.nontrivial += 1; let c2 = canon(&v2); if c2 != c1 { out.fail(format!("C06|different-result|solved-once-in-{}|{}", route, fam_key(&p.family)), case.clone(), format!("interpreter: {} ; bytecode in the {} after one solve of the rebuilt plan: {}", c1.short(), route, c2.short())); } else { out.count("rebuilt_plan_solved_once_agrees"); } }
+              Ok(Err(_)) => out.count("rebuilt_plan_step_error"),
+              Err(pn) => { out.fail(format!("C06|panic|solve-in-{}|{}", route, fam_key(&p.family)), case.clone(), panic_msg(pn)); }
+            }
+          }
         }
         Ok(Err(e)) => { out.count(&format!("run_error_in_{}", route)); out.set(&format!("run_errors_in_{}", route), &format!("{}:{}", fam_key(&p.family), e.kind_name())); }
         Err(pn) => { out.nontrivial += 1; out.fail(format!("C06|panic|run-in-{}|{}", route, fam_key(&p.family)), case.clone(), panic_msg(pn)); }
